@@ -157,7 +157,7 @@ struct Run {
         }
     }
 
-    Sub do_subscribe(const Script &sc) {
+    Sub do_subscribe(const Script &sc, bool start_muted = false) {
         int id = next_id++;
         auto tracker = std::make_shared<Tracker>(id);
         auto f = [this, id, sc, tracker](long v) {
@@ -170,6 +170,12 @@ struct Run {
         // three construction paths of ObserverAutoPtr: invocable, unique_ptr of a derived observer, raw pointer
         using EO = typename Sig::EO;
         using Func = typename S::Observer_t::Func;
+        if (start_muted) {   // only the two paths that take a ready-made observer can carry initial parameters
+            typename EO::Params prm;
+            prm.mute = true;
+            if (id % 2) return subject->subscribe(std::make_unique<EO>(Func(Sig::cb(f)), prm));
+            return subject->subscribe(static_cast<typename S::Observer_t *>(new EO(Func(Sig::cb(f)), prm)));
+        }
         switch (id % 3) {
             case 0: return subject->subscribe(Sig::cb(f));
             case 1: return subject->subscribe(std::make_unique<EO>(Func(Sig::cb(f))));
@@ -306,7 +312,8 @@ void run_typed(const Execution &ex) {
             // random histories: skip operations whose documented precondition does not hold
             auto &hd = run->H[h];
             bool ok = true;
-            if (op == "Subscribe") ok = hd.getSubject() == nullptr && run->next_id <= g_max_subs && h != "hf";
+            if (op == "Subscribe" || op == "SubscribeMuted") ok = hd.getSubject() == nullptr && run->next_id <= g_max_subs && h != "hf";
+            else if (op == "UnsubF") ok = hd.getSubject() != nullptr && h != "hf";
             else if (op == "UnsubH") ok = hd.getSubject() != nullptr && h != "hf";
             else if (op == "Mute") ok = h != "hf" && hd.isValid() && !hd.isMuted();
             else if (op == "Unmute") ok = h != "hf" && hd.isValid() && hd.isMuted();
@@ -325,6 +332,10 @@ void run_typed(const Execution &ex) {
         try {
             if (op == "Subscribe") {
                 run->H[h] = run->do_subscribe(parse_script(st.str("sc", "-")));
+            } else if (op == "SubscribeMuted") {
+                run->H[h] = run->do_subscribe(parse_script(st.str("sc", "-")), true);
+            } else if (op == "UnsubF") {
+                run->foreign.unsubscribe(run->H[h]);   // another subject of the same signature
             } else if (op == "UnsubH") {
                 run->H[h].unsubscribe();
             } else if (op == "UnsubS") {
